@@ -37,6 +37,9 @@ type example struct {
 }
 
 func TestExamples(t *testing.T) {
+	if vt.ReplayPath() != "" {
+		t.Skip("replay mode runs only the replayed script")
+	}
 	defer cE.Flush()
 	table := []Entry{
 		{"aa:x", seqVal(lit("X"))}, {"dd:x", seqVal(lit("DX"))}, {"aa:k", seqVal(lit("x"))},
